@@ -108,12 +108,11 @@ class Element:
         eo = deepcopy(self)
         eo.interior_dofs = 0
 
+        # the components of the outer part are the outer parts of the
+        # components
         if hasattr(eo, 'elems'):
-            for i in range(len(eo.elems)):
-                eo.elems[i].interior_dofs = 0
+            eo.elems = tuple(e.condensed()[1] for e in self.elems)
         elif hasattr(eo, 'elem'):
-            # the components of the outer part are the outer parts of the
-            # wrapped element
             eo.elem = self.elem.condensed()[1]
 
         ei = deepcopy(self)
